@@ -3,6 +3,7 @@ import Q1t.Proofs.NoPanicRoute
 import Q1t.Proofs.C18Witness
 import Q1t.Proofs.ExportNoPanicOQBridge
 import Q1t.Proofs.ExportNoPanicCQBridge
+import Q1t.Proofs.ExportNoPanicLatex
 /-!
 # C18 — invalid requests yield errors, never panics or silently wrong runs
 
@@ -212,22 +213,26 @@ theorem reps_same_constructor_partial {α P : Type} [CommRing α] [Amp α P] [Si
 /-! ## the exporters
 
 FULL statement: every circuit whose building calls succeeded is exported to every format without a panic.
-False on the pinned code (witnesses below).  Proved for the OpenQASM and the c-QASM exporter, as statements about
-the exporter MODELS of C11 (`Q1t.OpenQasm`, table `libTable` = what the templates re-extracted from the source
-compile to) and C12 (`Q1t.CQ`, generated table `Gen.cqGates`), under `WellFormed`.  NOT proved for LaTeX: the model
-of C13 needs, beyond `Shape`, the invariants "no column yet ⇒ every wire marked in use", "open ranges lie inside
-the grid and are nested" and "loop headers are recorded left to right" (nested `Loop`s of ≥ 3 iterations violate the
-last one: `C13-nested-loop-header-panic`); the LaTeX outcome stays compared with the model by the correspondence
-run only. -/
+False on the pinned code (witnesses below).  Proved for all three exporters, as statements about the exporter
+MODELS of C11 (`Q1t.OpenQasm`, table `libTable` = what the templates re-extracted from the source compile to),
+C12 (`Q1t.CQ`, generated table `Gen.cqGates`) and C13 (`Q1t.Latex`), under `WellFormed`.  For LaTeX C13's
+theorem (`circuitLatex_ok_or_err`: no panic on `opOk ∧ opSafe`) covers a CONDITIONAL gate only when it is a
+one-column library gate (no `I`, `Kron`, `Composite`, `Loop` under a condition) with distinct condition bits; that
+is no panic class of the code (no witness exists), so it is not a conjunct of `WellFormed` but the explicit extra
+hypothesis `condOneColumn` of the LaTeX part. -/
 
-/-- **exports_never_panic_partial** (OpenQASM, c-QASM): for every circuit built through the public calls that
+/-- **exports_never_panic_partial** (OpenQASM, c-QASM, LaTeX): for every circuit built through the public calls that
 satisfies `WellFormed`, the model of `Circuit::open_qasm()` and the model of `Circuit::c_qasm()` (for any rendering
-of numbers `N`) return a program or an error — never the `panic` outcome.  The circuit is handed to the models
+of numbers `N`) return a program or an error — never the `panic` outcome; so does the model of `Circuit::latex()` when, in
+addition, the conditional gates are one-column gates under distinct condition bits (`condOneColumn`).  The circuit is handed to the models
 through `ofCirc`, whose gate naming the models read back as the same term (`export_input_is_the_circuit`). -/
 theorem exports_never_panic_partial {P : Type} (N : CQ.Num P) (nq nc : Nat) (calls : List (Call P)) (shots : Nat)
     (hwf : WellFormed (runCalls (Circ.new nq nc) calls).1 shots = true) :
     OpenQasm.exportCircuit OpenQasm.libTable (OpenQasm.ofCirc (runCalls (Circ.new nq nc) calls).1) ≠ .panic ∧
-    CQ.exportText Gen.cqGates N (CQ.ofCirc (runCalls (Circ.new nq nc) calls).1) ≠ .panic := by
+    CQ.exportText Gen.cqGates N (CQ.ofCirc (runCalls (Circ.new nq nc) calls).1) ≠ .panic ∧
+    (condOneColumn (runCalls (Circ.new nq nc) calls).1 = true →
+      (∃ t, Latex.circuitLatex (toLatexCirc (runCalls (Circ.new nq nc) calls).1) = .ok t) ∨
+      (∃ e, Latex.circuitLatex (toLatexCirc (runCalls (Circ.new nq nc) calls).1) = .err e)) := by
   have hsz := runCalls_ops (Circ.new (P := P) nq nc) calls
   have hin : ∀ op ∈ (runCalls (Circ.new nq nc) calls).1.ops,
       opInRange (runCalls (Circ.new nq nc) calls).1.nq (runCalls (Circ.new nq nc) calls).1.nc op := by
@@ -238,7 +243,8 @@ theorem exports_never_panic_partial {P : Type} (N : CQ.Num P) (nq nc : Nat) (cal
     simp only [WellFormed.WellFormed, Bool.and_eq_true, List.all_eq_true] at hwf
     exact List.isEmpty_iff.mp (hwf.2 op hop)
   exact ⟨OpenQasm.openQasm_ne_panic _ hin (fun op hop d hd => by rw [hnone op hop] at hd; cases hd),
-    CQ.cQasm_ne_panic_circ N _ hin (fun op hop d hd => by rw [hnone op hop] at hd; cases hd)⟩
+    CQ.cQasm_ne_panic_circ N _ hin (fun op hop d hd => by rw [hnone op hop] at hd; cases hd),
+    fun hcond => latex_ne_panic _ hin hnone hcond⟩
 
 /-- the table the OpenQASM model is run with IS what the templates re-extracted from the Rust source compile to
 (re-checked on every run: `Gen.oqGates` is regenerated by the translator) -/
@@ -396,6 +402,13 @@ theorem neg_composite_subgate_out_of_range : allAccepted 1 0 wCompSub = true ∧
 example : allAccepted 2 2 wCompGood = true ∧ WellFormed (built 2 2 wCompGood) 2 = true ∧
     openQasmCls (built 2 2 wCompGood) = .ok ∧ latexOutcome (built 2 2 wCompGood) = .ok () :=
   ⟨compGood_accepted, compGood_wf, compGood_oq, compGood_latex⟩
+
+/-- drawable: a `Loop` of 3 iterations inside a `Loop` of 3 iterations is accepted and exported to OpenQASM; LaTeX
+panics while it computes the loop-header offsets (`C13.neg_nested_loop_panics`) -/
+theorem neg_nested_loop : allAccepted 1 0 wNestedLoop = true ∧
+    circDefects (built 1 0 wNestedLoop) = [.nestedLoop] ∧ latexOutcome (built 1 0 wNestedLoop) = .panic ∧
+    openQasmCls (built 1 0 wNestedLoop) = .ok :=
+  ⟨nested_accepted, nested_defects, nested_latex, nested_oq⟩
 
 /-- c-QASM names only `nr_qbits` classical bits: a condition on classical bit 1 of a one-qubit circuit panics -/
 theorem neg_cqasm_control_ge_nq : allAccepted 1 2 wCondCtl = true ∧
